@@ -889,6 +889,22 @@ def sysExtend (offsetDonor : Bool) (i : Nat) (value : Int ⊕ Nat) (scale : Bool
   let j ← mkSys a y.box y.pbc (some syms) none
   pure (a, j)
 
+/-- numpy's `dtype.kind` letter of a dtype class (unsigned integers are in the class `int`). -/
+def kindOf : DType → String
+  | .int => "i"
+  | .flt => "f"
+  | .bool => "b"
+  | .str _ => "U"
+
+/-- `Atoms.__init__`: "integer (or bool) input is stored as float": the kinds of `pos.dtype.kind in 'iub'`. -/
+def posCastKinds : List String := ["i", "u", "b"]
+
+/-- the `pos` argument of the constructor as stored: `pos.astype(float)` for the kinds above. -/
+def posLit (v : Val) : Val :=
+  if posCastKinds.contains (kindOf v.dt) then
+    ⟨.flt, v.shape, v.data.map (fun c => (castCell .flt c).getD (.flt 0))⟩
+  else v
+
 /-! ## operations and the step function -/
 
 inductive Op where
@@ -975,7 +991,7 @@ def Op.idsOk (s : State) : Op → Bool
 /-- the transcription of each call, parameterised by the `atoms_extend` offset variant. -/
 def run (offsetDonor : Bool) : Op → M Out
   | .new n a p ex => do
-    let o ← mkAtoms n (a.map .lit) (p.map .lit) (ex.map (fun kv => (kv.1, Src.lit kv.2)))
+    let o ← mkAtoms n (a.map .lit) (p.map (fun v => Src.lit (posLit v))) (ex.map (fun kv => (kv.1, Src.lit kv.2)))
     pure (.obj o)
   | .setView o k v => do viewSet o k (.lit v); pure .unit
   | .propGet o k ix => do let v ← propGet o k ix; pure (.val v)
